@@ -22,6 +22,9 @@ type c09Op struct {
 type c09Hist struct {
 	Mux bool    `json:"mux"`
 	Ops []c09Op `json:"ops"`
+	// LeaveServers: the caller does not stop the brokered servers it started with AcceptAndServe;
+	// closing the client and the plugin's server has to end them (and their goroutines)
+	LeaveServers bool `json:"leave_servers,omitempty"`
 }
 
 type c09Case struct {
@@ -32,7 +35,7 @@ func c09RTGen(t *rapid.T) any {
 	c := &c09Case{}
 	nh := 4 + uniform(t, "nhist", 13)
 	for h := 0; h < nh; h++ {
-		hist := c09Hist{Mux: rapid.Bool().Draw(t, "mux")}
+		hist := c09Hist{Mux: rapid.Bool().Draw(t, "mux"), LeaveServers: rapid.Bool().Draw(t, "leaveservers")}
 		n := 1 + uniform(t, "nops", 4)
 		if hist.Mux {
 			n = 1 + uniform(t, "nopsmux", 2) // multiplexed establishments are sequential: keep them few
@@ -75,8 +78,13 @@ func c09RunHist(h c09Hist) (violation, slow string) {
 	}
 	host, plug := &localEnd{br: p.host, name: "host"}, &localEnd{br: p.plug, name: "plugin"}
 	defer func() {
-		host.cleanup()
-		plug.cleanup()
+		if h.LeaveServers {
+			host.cleanupPartial(0)
+			plug.cleanupPartial(0)
+		} else {
+			host.cleanup()
+			plug.cleanup()
+		}
 		p.close()
 	}()
 	type res struct {
@@ -248,5 +256,5 @@ func waitForD(d, step time.Duration, cond func() bool) bool {
 var propC09RT = register(&Prop{
 	ID: "C09", Name: "C09RT", Gen: c09RTGen, New: func() any { return &c09Case{} }, Run: c09RTRun,
 	Rule: "real time, gRPC brokers (plain and multiplexed) on in-process pairs: a case is a batch of 4-16 independent histories run concurrently (so that their 5 s timers overlap), each of 1-4 operations over {dial nobody accepts, two dials to one accepted id, dial issued 5.05-6 s after the accept (connection info expired), normal in-window pair}. " +
-		"Oracle: an unmatched dial (+first call) fails, in-window dials succeed, every call returns within about 5 s (+10 s wall-clock slack, confirmed alone by the driver), afterwards a fresh accept/dial pair succeeds in both directions and Ping works, and 12 s after closing every client no goroutine inside go-plugin remains beyond the baseline. Non-trivial: the batch contains an unmatched, duplicate or late operation.",
+		"Oracle: an unmatched dial (+first call) fails, in-window dials succeed, every call returns within about 5 s (+10 s wall-clock slack, confirmed alone by the driver), afterwards a fresh accept/dial pair succeeds in both directions and Ping works, and 12 s after closing every client no goroutine inside go-plugin remains beyond the baseline, whether the caller stopped its brokered servers itself or left them to the close (drawn per history). Non-trivial: the batch contains an unmatched, duplicate or late operation.",
 })
